@@ -7,6 +7,7 @@ import (
 	"github.com/pingcap/kvproto/pkg/metapb"
 	"github.com/tikv/pd/server/core"
 	"github.com/tikv/pd/server/schedule/operator"
+	"github.com/tikv/pd/server/schedule/opt"
 	"github.com/tikv/pd/server/schedule/placement"
 	"verif/harness/lib/sim"
 )
@@ -61,6 +62,16 @@ type kase struct {
 	World  *world  `json:"world"`
 	Origin string  `json:"origin"` // compact layout, see sim.ParseLayout
 	Req    request `json:"request"`
+	// Family names the workload family when it is not the plain one-build-on-a-fixed-world case:
+	// "live-world" (long-lived cluster and region objects, world changes between and inside builds),
+	// "concurrent" (builds overlapped with each other and with world changes on one cluster),
+	// "alloc-fault" (the FailAlloc-th id allocation of the build fails), "no-store-record".
+	Family    string   `json:"family,omitempty"`
+	FailAlloc int      `json:"fail_alloc,omitempty"`
+	History   []string `json:"history,omitempty"` // last world events before the build (live families)
+	// AmbiguousWorld: the world changed while the operator was being built; the expected-follower clause
+	// (which depends on the store states the builder was entitled to see) is skipped and counted.
+	AmbiguousWorld bool `json:"ambiguous_world,omitempty"`
 }
 
 func metaRole(r string) metapb.PeerRole {
@@ -216,7 +227,7 @@ func rolesMap(l []roleReq) map[uint64]placement.PeerRoleType {
 
 // invoke calls the real pd entry point named by the request. A panic inside pd is returned as
 // panicked != nil.
-func invoke(c *cluster, origin *core.RegionInfo, q *request) (op *operator.Operator, err error, panicked interface{}) {
+func invoke(c opt.Cluster, origin *core.RegionInfo, q *request, between func()) (op *operator.Operator, err error, panicked interface{}) {
 	defer func() {
 		if p := recover(); p != nil {
 			panicked = p
@@ -225,7 +236,11 @@ func invoke(c *cluster, origin *core.RegionInfo, q *request) (op *operator.Opera
 	const desc = "c08"
 	switch q.API {
 	case apiBuilder:
-		b := operator.NewBuilder(desc, c, origin).SetPeers(targetPeers(q.Target))
+		b := operator.NewBuilder(desc, c, origin)
+		if between != nil {
+			between() // the world moves on between NewBuilder and the rest of the chain
+		}
+		b = b.SetPeers(targetPeers(q.Target))
 		if q.Leader != 0 {
 			b = b.SetLeader(q.Leader)
 		}
@@ -244,7 +259,11 @@ func invoke(c *cluster, origin *core.RegionInfo, q *request) (op *operator.Opera
 		for s, r := range roles {
 			peers[s] = &metapb.Peer{StoreId: s, Role: r.MetaPeerRole()}
 		}
-		b := operator.NewBuilder(desc, c, origin).SetPeers(peers).SetExpectedRoles(roles)
+		b := operator.NewBuilder(desc, c, origin)
+		if between != nil {
+			between()
+		}
+		b = b.SetPeers(peers).SetExpectedRoles(roles)
 		if q.Light {
 			b = b.EnableLightWeight()
 		}
